@@ -811,6 +811,70 @@ SPEC_FUNCS = {
     'bound': s_bound, 'is_none': s_is_none, 'some': s_some,
 }
 
+SPEC_CONSTS = {}
+NATIVE_SPEC = {}     # name -> native implementation (for pyvc.native)
+
+
+def spec_function(name, native=None):
+    """register a specification-only function: handler(ev, state, node) -> SymVal"""
+    def deco(f):
+        SPEC_FUNCS[name] = f
+        if native is not None:
+            NATIVE_SPEC[name] = native
+        return f
+    return deco
+
+
+def _np_round_native(x):
+    import numpy as np
+    return float(np.round(x))
+
+
+@spec_function('rnd', native=_np_round_native)
+def s_rnd(ev, state, node):
+    from . import numpy_prims
+    return numpy_prims.np_round(ev, state, node)
+
+
+def _dtype_const(name):
+    def mk():
+        v = const_int(1000 + DTYPE_IDS[name])
+        v.meta = ('dtype', name)
+        return v
+    return mk
+
+
+def _install_dtype_consts():
+    import numpy as np
+    for n in DTYPE_IDS:
+        SPEC_CONSTS['DT_' + n.upper()] = _dtype_const(n)
+        NATIVE_SPEC['DT_' + n.upper()] = {'int': int, 'float': float, 'bool': bool}.get(n) or getattr(np, n)
+
+
+def _iinfo_native(which):
+    def f(d):
+        import numpy as np
+        return int(getattr(np.iinfo(np.int64 if d is int else d), which))
+    return f
+
+
+def _iinfo_spec(which):
+    def h(ev, state, node):
+        d = ev.eval(state, node.args[0])
+        t = to_int(d)
+        r = z3.IntVal(0)
+        for n, (lo, hi) in INT_INFO.items():
+            r = z3.If(t == 1000 + DTYPE_IDS[n], z3.IntVal(lo if which == 'min' else hi), r)
+        lo, hi = INT_INFO['int64']
+        r = z3.If(t == 1000 + DTYPE_IDS['int'], z3.IntVal(lo if which == 'min' else hi), r)
+        return SymVal(T.INT, r)
+    return h
+
+
+spec_function('iinfo_min', native=_iinfo_native('min'))(_iinfo_spec('min'))
+spec_function('iinfo_max', native=_iinfo_native('max'))(_iinfo_spec('max'))
+_install_dtype_consts()
+
 QUALIFIED = {}
 
 
